@@ -241,13 +241,12 @@ func c10SweepExec(ctx *vk.Ctx, c c10SweepCase) error {
 			// overwritten store keys): legitimate, but counted
 			ctx.Class("oog-at-or-above-need")
 		}
+		if err := axGasBound(ctx, r, t.Gas, what); err != nil {
+			return err
+		}
 		if !axOOG(r) {
-			if r.Error == nil && r.GasUsed > r.GasWanted {
-				return fmt.Errorf("%s: successful with GasUsed %d > GasWanted %d", what, r.GasUsed, r.GasWanted)
-			}
 			continue
 		}
-		ctx.ClassIf(r.GasUsed > t.Gas, "oog-reported-gas-used-exceeds-wanted")
 		if r.GasWanted == 0 {
 			// out of gas inside the ante handler: an ante rejection, no fee
 			ctx.Class("oog-in-ante")
@@ -367,6 +366,9 @@ func c10BlockExec(ctx *vk.Ctx, c c10BlockCase) error {
 			if os.Getenv("VERIF_DEBUG") != "" && !refused {
 				fmt.Printf("%s %.150q\n", what, r.Log)
 			}
+			if err := axGasBound(ctx, r, t.Gas, what); err != nil {
+				return err
+			}
 			if consumed >= c.MaxGas && !refused {
 				return fmt.Errorf("%s: processed although the block gas limit was exhausted", what)
 			}
@@ -386,9 +388,6 @@ func c10BlockExec(ctx *vk.Ctx, c c10BlockCase) error {
 					ch = r.GasWanted
 				}
 				consumed += ch
-				if r.Error == nil && r.GasUsed > r.GasWanted {
-					return fmt.Errorf("%s: successful with GasUsed > GasWanted", what)
-				}
 				if r.Error == nil && consumed > c.MaxGas {
 					return fmt.Errorf("%s: reported successful although it lifts the block's gas to %d, above the limit", what, consumed)
 				}
